@@ -11,7 +11,7 @@
     race detector on the Go side (the model's atomic steps assume the atomic.Pointer of the current code). *)
 From Coq Require Import List Arith Bool.
 Import ListNotations.
-From Glb Require Import Model.TaskLane Proofs.TaskLaneP Proofs.TaskLaneInv Proofs.TaskLaneStatus Proofs.TaskLaneLive.
+From Glb Require Import Model.TaskLane Proofs.TaskLaneP Proofs.TaskLaneInv Proofs.TaskLaneStatus Proofs.TaskLaneLive Proofs.TaskLaneDec.
 
 (** A panic changes worker j (back to its loop top, where [WCheck j] is enabled), the finished log, the
     panic slot and the panic log — nothing else. *)
@@ -92,6 +92,44 @@ Theorem C14_status_never_blocks : forall qs s o,
 Proof. exact status_never_blocks. Qed.
 Print Assumptions C14_status_never_blocks.
 
+(** A Status() call whose reads run uninterrupted from [s] (no other label in between) is enabled and
+    records exactly (o, pending_of s, last_panic s); nothing else changes except the observer's entry. *)
+Theorem C14_status_snapshot_exact : forall qs s o,
+  ostate_of s o = OIdle ->
+  exists ob, run qs s (StatusBegin o :: map (StatusReadLen o) (seq 0 (length (lanes s))) ++ [StatusReadCnt o; StatusReadPanic o])
+             = Some (set_snaps (set_obs s ob) ((o, pending_of s, last_panic s) :: snaps s))
+             /\ aget OIdle ob o = OIdle.
+Proof. exact status_snapshot_exact. Qed.
+Print Assumptions C14_status_snapshot_exact.
+
+(** ... hence at rest it reports exactly the number of accepted, not yet started tasks. *)
+Theorem C14_status_snapshot_at_rest : forall qs n ls s o,
+  run qs (init n) ls = Some s -> at_rest s = true -> ostate_of s o = OIdle ->
+  exists ob, run qs s (status_labels o n)
+             = Some (set_snaps (set_obs s ob)
+                       ((o, length (accepted s) - length (started s), last_panic s) :: snaps s)).
+Proof. exact status_snapshot_at_rest. Qed.
+Print Assumptions C14_status_snapshot_at_rest.
+
+(** Once a panic has been recorded the slot is never empty again, and every Status() call that completes
+    afterwards (its last read is the slot) reports a panic value, never none. *)
+Theorem C14_last_panic_stable : forall qs ls s s',
+  last_panic s <> None -> run qs s ls = Some s' ->
+  last_panic s' <> None /\
+  exists new, snaps s' = new ++ snaps s /\ Forall (fun x => snd x <> None) new.
+Proof. intros qs ls s s'. exact (last_panic_stable qs ls s s'). Qed.
+Print Assumptions C14_last_panic_stable.
+
+(** After shutdown (every goroutine dead) in any execution: what Status reports (atomically read) is exactly
+    accepted - started. Buffered tasks stay in len(); a queue goroutine that returned holding a task did so
+    after its increment and before its decrement (there is no Done case between receive and increment), so the
+    counter keeps it; one that returned from its first select holds nothing. No correction term. *)
+Theorem C14_pending_after_shutdown : forall qs n ls s,
+  run qs (init n) ls = Some s -> all_dead s ->
+  pending_of s = length (accepted s) - length (started s).
+Proof. exact pending_after_shutdown. Qed.
+Print Assumptions C14_pending_after_shutdown.
+
 (** Non-vacuity: queueSize 0 (rendezvous push), two workers panic with values 7 and 8, Status before and after,
     worker 1 then runs a third task. *)
 Definition C14_ex : list label :=
@@ -128,4 +166,27 @@ Example C14_ex_nonatomic :
     (run 1 (init 1)
        [PushBegin 0 0 10; PushOk 0; StatusBegin 0; StatusReadLen 0 0; QTake 0; QCount 0; StatusReadCnt 0; StatusReadPanic 0])
   = Some ([(2, None)], 1).
+Proof. vm_compute. reflexivity. Qed.
+
+(** uninterrupted Status() from a state with a buffered task, a counted held task and an earlier panic *)
+Definition C14_ex2 : list label :=
+  [WCheck 0; WTryFail 0; PushBegin 0 0 10; PushOk 0; QTake 0; QCount 0; QCheck 0; QTryOwn 0; QDecr 0; WEnd 0 (Some 7);
+   PushBegin 0 0 11; PushOk 0; QTake 0; QCount 0; PushBegin 0 0 12; PushOk 0].
+Example C14_ex_snapshot_exact :
+  option_map (fun s => (at_rest s, pending_of s, length (accepted s) - length (started s), last_panic s,
+                        option_map snapshots (run 1 s (status_labels 3 1))))
+    (run 1 (init 1) C14_ex2)
+  = Some (true, 2, 2, Some 7, Some [(2, Some 7)]).
+Proof. vm_compute. reflexivity. Qed.
+
+(** shutdown with a dropped counted task (10, held), a dropped buffered task (11) and a task pushed into the
+    buffer of lane 1 AFTER every goroutine died (13; its producer had passed the first Done test before the cancel):
+    all dead, pending = 3 = accepted - started, and Status reports 3 *)
+Example C14_ex_after_shutdown :
+  option_map (fun s => (all_deadb s, cancelled s, pending_of s, length (accepted s), length (started s),
+                        option_map snapshots (run 1 s (status_labels 0 2))))
+    (run 1 (init 2)
+       [PushBegin 0 0 10; PushOk 0; QTake 0; QCount 0; PushBegin 1 0 11; PushOk 1; PushBegin 2 1 13;
+        Cancel; QCheck 0; QDie 1; WCheck 0; WCheck 1; PushOk 2])
+  = Some (true, true, 3, 3, 0, Some [(3, None)]).
 Proof. vm_compute. reflexivity. Qed.
